@@ -599,13 +599,27 @@ impl Mon {
         let r = &w.runs[idx];
         let mut fail: Option<String> = None;
         let mut nontriv = false;
+        let mut all_last_instr = true;
         for (nm, blob) in [("prev", &r.prev), ("cur", &r.cur)] {
-            let kin = knowledge(&interp::dec(blob));
+            let din = interp::dec(blob);
+            let kin = knowledge(&din);
             if !kin.is_empty() && nm == "cur" && !r.prev.is_empty() {
                 nontriv = true;
             }
             for (c, n) in kin {
                 if ko.get(&c).cloned().unwrap_or(0) < n {
+                    // which call produced the lost result (calls in a stream-fold last instruction: finding F22)
+                    let f = din
+                        .cid_info
+                        .service_result_store
+                        .iter()
+                        .find(|(cid, _)| cid.get_inner().as_ref() == &c[1..])
+                        .and_then(|(_, agg)| din.cid_info.tetraplet_store.get(&agg.tetraplet_cid))
+                        .map(|t| t.function_name.clone())
+                        .unwrap_or_default();
+                    if !self.analysis.calls.get(&f).map(|ci| ci.multi).unwrap_or(false) {
+                        all_last_instr = false;
+                    }
                     fail = Some(format!(
                         "peer {} eid {}: lost {c} x{n} from {nm}\nprev: {}\ncur: {}\nout: {}",
                         r.peer,
@@ -618,7 +632,8 @@ impl Mon {
             }
         }
         if let Some(f) = fail {
-            self.report(w, Some(idx), "C09", "lost-result", f);
+            let tag = if all_last_instr { "lost-result-last-instruction" } else { "lost-result" };
+            self.report(w, Some(idx), "C09", tag, f);
         } else if nontriv {
             let key = format!("{:?}", ko.keys().collect::<Vec<_>>());
             self.nontrivial.insert(hash64(&key));
